@@ -14,6 +14,7 @@ import Oas3Model.Driver.Enum
 import Oas3Model.Driver.Cache
 import Oas3Model.Driver.Discr
 import Oas3Model.Driver.Valid
+import Oas3Model.Driver.Compile
 open Lean Oas3.Driver
 
 def allOps : List (String × Handler) := List.flatten [
@@ -32,6 +33,7 @@ def allOps : List (String × Handler) := List.flatten [
   Oas3.Driver.Cache.ops,
   Oas3.Driver.Discr.ops,
   Oas3.Driver.Valid.ops,
+  Oas3.Driver.Compile.ops,
   []]
 
 def handleLine (line : String) : String :=
